@@ -37,7 +37,7 @@ func NewRaw(spec *Spec, conf func(pgurl string) []byte, snapshots bool, pre func
 	if err != nil {
 		return nil, err
 	}
-	e.ConfJSON = conf(e.PG.URL())
+	e.ConfJSON = conf(e.PGURL())
 	if pre != nil {
 		if err := pre(e); err != nil {
 			e.Close()
